@@ -102,15 +102,15 @@ func genFixture(r *core.Run) *fixture {
 		} else {
 			txt = g.PolicyText()
 		}
-		var p cedar.Policy
-		if err := p.UnmarshalCedar([]byte(txt)); err != nil {
+		pp, how, err := gen.ParsePolicy(r.T, txt)
+		if err != nil {
 			continue
 		}
 		id := cedar.PolicyID(fmt.Sprintf("p%d", i))
-		f.ps.Add(id, &p)
+		f.ps.Add(id, pp)
 		f.ids = append(f.ids, id)
-		f.pols = append(f.pols, &p)
-		f.texts = append(f.texts, txt)
+		f.pols = append(f.pols, pp)
+		f.texts = append(f.texts, txt+"   // built via "+how)
 	}
 	if r.T.Intn(3) == 2 && len(f.ids) > 0 {
 		// the same set, but loaded from JSON (a different construction path)
